@@ -572,3 +572,61 @@ def run_branch_pair(prog, tier, repo):
                 res.ok(ikey, b.loc(a[0][1]), 'both branch lists are tested together')
     res.floor('IfElse nodes whose branch lists are tested for emptiness', n, 2)
     return [res]
+
+
+# ---------------------------------------------------------------------------------------------------------------------
+# INLINE-REWRITES-ALL (C02): the inliner copies the callee's statements into the caller and renames every variable on the way.
+# A statement rebuilt by the renaming function must take every expression operand from the renaming of the original
+# operand; an operand copied over unchanged still names the callee's variable, which does not exist in the caller.
+
+def run_inline_rewrites_all(prog, tier, repo):
+    res = RuleResult('INLINE-REWRITES-ALL', 'C02: every expression operand of a statement rebuilt by the inliner\'s renaming function '
+                     'comes out of the renaming of the original operand, none is copied over unchanged')
+    stmt = _adt(prog, 'samlang_ast::mir::Statement')
+    expr = _adt(prog, 'samlang_ast::mir::Expression')
+    if stmt is None or expr is None:
+        res.cannot_decide('mir::Statement / mir::Expression')
+        return [res]
+    n = 0
+    for b in sorted(prog.bodies.values(), key=lambda x: x.name):
+        if not b.name.startswith('samlang_optimization::inlining::') or b.kind == 'closure' or '::tests' in b.name:
+            continue
+        sparams = [i for i in range(1, b.nargs + 1) if strip_refs(b.locals[i]).k == 'adt' and strip_refs(b.locals[i]).id == stmt.id]
+        if not sparams:
+            continue
+        # it must be the renaming function: it calls the expression renamer (fn(&Expression, ..) -> Expression of this module)
+        def is_expr_renamer(cid):
+            c = prog.bodies.get(cid)
+            return c is not None and c.name.startswith('samlang_optimization::inlining::') and c.kind != 'closure' \
+                and strip_refs(c.locals[0]).k == 'adt' and strip_refs(c.locals[0]).id == expr.id \
+                and any(strip_refs(c.locals[i]).k == 'adt' and strip_refs(c.locals[i]).id == expr.id for i in range(1, c.nargs + 1))
+        n_ren = sum(1 for bl in b.blocks if not bl.cleanup and bl.term[0] == 'call' and is_expr_renamer(callee(bl.term)[0]))
+        if n_ren < 2:
+            continue
+        for bi, bl in enumerate(b.blocks):
+            if bl.cleanup:
+                continue
+            for st in bl.stmts:
+                if not (st[0] == 'a' and st[2][0] == 'agg' and st[2][1][0] == 'adt' and st[2][1][1] == stmt.id):
+                    continue
+                vname = stmt.variants[st[2][1][2]].name
+                fields = stmt.variants[st[2][1][2]].fields
+                for k, o in enumerate(st[2][2]):
+                    if k >= len(fields) or o[0] not in ('c', 'm'):
+                        continue
+                    fty = strip_refs(fields[k].ty)
+                    if not (fty.k == 'adt' and fty.id == expr.id):
+                        continue
+                    n += 1
+                    r, path = operand_root(b, o)
+                    copied = r in sparams and any(e[0] == 'f' for e in path)
+                    kth = sum(1 for i in res.instances if i.key.startswith(f'operand:{b.name}:{vname}.{fields[k].name}#')) + 1
+                    key = f'operand:{b.name}:{vname}.{fields[k].name}#{kth}'
+                    if copied:
+                        res.violation(key, b.loc(st[3]), f'{b.name} rebuilds a {vname} statement with `{fields[k].name}` copied unchanged '
+                                      f'from the callee\'s statement: after inlining it still names a variable of the callee that does '
+                                      f'not exist in the caller (the renamed definition is then dead and removed)')
+                    else:
+                        res.ok(key, b.loc(st[3]), 'operand produced by the renaming')
+    res.floor('expression operands of statements rebuilt by the inliner', n, 6)
+    return [res]
